@@ -71,6 +71,13 @@ PLANS = {
     },
     "C08": with_storage("C08", world()),
     "C09": world(),
+    "C10": {
+        "quick": [st("dbg", "conc", 24000, 6, 8, mode="controlled"), st("rel", "conc", 1600, 300, 8, mode="stress")],
+        "thorough": [st("dbg", "conc", 800000, 6, 16, 3000, mode="controlled"), st("rel", "conc", 800000, 6, 16, 3000, mode="controlled"),
+                     st("rel", "conc", 60000, 400, 8, 3000, mode="stress", max_threads=16),
+                     st("tsan", "conc", 2400, 200, 8, 3000, mode="stress"),
+                     st("miri", "conc", 32, 5, 16, 3000, mode="stress", max_threads=4)],
+    },
     "C11": {
         "quick": [st("dbg", "dispatch", 4000, 24, 8), st("rel", "dispatch", 4000, 24, 8)],
         "thorough": [st("dbg", "dispatch", 40000, 24, 16, 3000), st("rel", "dispatch", 40000, 24, 16, 3000),
@@ -131,6 +138,8 @@ RULES.update({
            "non-trivial = case in which some entity received >=3 amounts interleaved with other entities' amounts",
     "C19": "enumerated grid: 17 storage kind / wrapper combinations x 11 destroying operations (clear, delete_entity, delete_entities, deferred delete + maintain, delete_all, drop(world), drop(world) with queued lazy inserts, lazy overwrite + maintain, refused insert / default placeholder overwrite, lazy remove + maintain, ChangeSet clear / drop / by-value join dropped midway) x panicking destructor call k in {1..6, middle, last}, random populations, then random continuation on the surviving world; "
            "non-trivial = case where the panicking destructor call was neither the first nor the last of >=3 destroyed values",
+    "C10": "small concurrent programs (2-4 threads x 1-6 ops in controlled mode; 2-16 threads x hundreds of ops in stress mode) of Entities::create / create_iter / build_entity / delete / is_alive / join and LazyUpdate exec / insert / create_entity on worlds pre-seeded with 0-5 live entities and 0-3 free-list entries, 1-3 concurrent phases each followed by maintain; controlled mode drives the interleaving of the hooked atomic steps with a seeded token-passing scheduler; "
+           "non-trivial (controlled) = schedule with >=1 context switch from a thread stopped between atomic steps into another thread that is also between atomic steps; distinct = distinct recorded schedules",
     "C11": "random system graphs (331 system-data shapes over 4 component storages + Entities + Read<LazyUpdate>, random DAG dependencies, barriers, thread-local systems, pools of 1-32 threads, 3-10 dispatches each); "
            "non-trivial = graph with >=2 systems sharing a storage of which >=1 writes and a dispatch in which >=2 systems overlapped in logical time",
     "C12": "the C04 operation sequences on the 11 tracked wrapper/inner combinations with a registered reader; window = one operation; event emission toggled at random points; clear() excluded; "
